@@ -1126,6 +1126,10 @@ def run(components=None, broker=None):
         for comp, deps in components.items():
             if comp in broker:
                 prepopulated_deps.update(deps)
+        if prepopulated_deps:
+            # prune a copy: `components` may be the caller's own graph or the
+            # process-wide default graph, which later evaluations still need
+            components = dict(components)
         for dep in prepopulated_deps:
             components.pop(dep, None)
     return run_components(run_order(components), components, broker)
